@@ -58,6 +58,20 @@ CHECKS['C18'] = dict(
     technique='Lean 4 proof by `decide` over regenerated method-resolution/token tables + renderer correspondence + direct differential of the real renderers',
     ref='DESIGN.md section 5, C18')
 
+CHECKS['C12'] = dict(
+    text='Lean 4 theorems for every tree: the breadth-first tree walk (model of utils.traverse) yields a permutation of '
+         'the pre-order list of proper descendants - each reachable token exactly once - each with a parent that lists '
+         'it and its depth; klass/depth/include_source act as filters of that walk; get_ast mirrors the tree node for '
+         'node. Both models are tied to the real functions on exported real trees (all option combinations). The '
+         'clauses about parsed documents (child kinds, exactly one RawText in code/HTML blocks, parent links by object '
+         'identity, heading level 1-6, list start vs first marker) are checked on the real object graph by the exporter '
+         'over generated inputs under the Html, Markdown, LaTeX and XWiki token sets: that part is exploration, '
+         'recorded as partial.',
+    note='Trusted: Lean kernel (axioms propext/Classical.choice/Quot.sound at most); json.dumps validity (re-parsed with '
+         'json.loads each run); exporter + correspondence harness. Object identity is not modelled.',
+    technique='Lean 4 proof (BFS = permutation of pre-order descendants, by induction on fuel/height) + correspondence on exported real trees + run-time shape checks',
+    ref='DESIGN.md section 5, C12')
+
 NOT_YET = {}
 
 
